@@ -837,3 +837,67 @@ def _equal_hook(it, ctx, a, k):
 
 
 T["hook.torch.equal"] = _equal_hook
+
+
+# ============================================================================ other univariate torch.distributions
+class VDistRecord(V):
+    """torch.distributions.{Bernoulli, Laplace, StudentT, Beta}(...): the constructor arguments as given (broadcast lazily) and
+    the documented elementwise log density.  Bernoulli (probs) and Laplace are explicit; StudentT and Beta use an uninterpreted
+    elementwise function LP_<kind>(x, parameters...) -- obligations about them are constructor-argument equalities."""
+
+    ARGS = {"Bernoulli": ("probs", "logits"), "Laplace": ("loc", "scale"), "StudentT": ("df", "loc", "scale"),
+            "Beta": ("concentration1", "concentration0"), "Categorical": ("probs", "logits")}
+
+    def __init__(self, kind, a, k):
+        self.kind = kind
+        names = self.ARGS[kind]
+        self.params = {}
+        for p, v in zip(names, a):
+            self.params[p] = v
+        for n_, v in k.items():
+            if n_ in names:
+                self.params[n_] = v
+            elif n_ != "validate_args":
+                raise PyRaise(VExc("TypeError", f"{kind}.__init__() got an unexpected keyword argument '{n_}'"))
+        if kind == "StudentT":
+            self.params.setdefault("loc", VNum(0.0))
+            self.params.setdefault("scale", VNum(1.0))
+        if kind in ("Bernoulli", "Categorical") and (("probs" in self.params) == ("logits" in self.params)) and not (self.params.get("logits") is NONE or self.params.get("probs") is NONE):
+            raise PyRaise(VExc("ValueError", "Either `probs` or `logits` must be specified, but not both."))
+        self.params = {n_: as_tensor(v) for n_, v in self.params.items() if v is not NONE}
+
+    def isinstance_of(self, name):
+        return name.split(".")[-1] in (self.kind, "Distribution", "ExponentialFamily")
+
+    def describe(self):
+        return f"<{self.kind} distribution>"
+
+    def py_getattr(self, it, ctx, name):
+        if name in self.params:
+            return self.params[name]
+        if name == "log_prob":
+            return VBuiltin(f"{self.kind}.log_prob", self.log_prob)
+        if name == "mean" and self.kind == "Bernoulli" and "probs" in self.params:
+            return self.params["probs"]
+        if name == "batch_shape":
+            dims, _ = E.broadcast_dims(ctx, list(self.params.values()))
+            return VTuple([VNum(d.size) for d in dims], is_size=True)
+        raise Undecided(f"{self.kind}.{name}")
+
+    def log_prob(self, it, ctx, a, k):
+        from . import dom_real
+        x = as_tensor(a[0] if a else k["value"])
+        names = [n_ for n_ in self.ARGS[self.kind] if n_ in self.params]
+        ts = [x] + [self.params[n_] for n_ in names]
+        R = E.to_real
+        if self.kind == "Bernoulli" and names == ["probs"]:
+            return E.pointwise(ctx, ts, lambda y, p: R(y) * dom_real.apply(ctx, "log", R(p)) + (1 - R(y)) * dom_real.apply(ctx, "log", 1 - R(p)), sort="real")
+        if self.kind == "Laplace":
+            return E.pointwise(ctx, ts, lambda y, m, b: -dom_real.apply(ctx, "log", 2 * R(b))
+                               - dom_real.rdiv(ctx, z3.If(R(y) - R(m) >= 0, R(y) - R(m), R(m) - R(y)), R(b)), sort="real")
+        f = z3.Function(f"LP_{self.kind}_" + "_".join(names), *([z3.RealSort()] * (len(ts) + 1)))
+        return E.pointwise(ctx, ts, lambda *v: f(*[R(q) for q in v]), sort="real")
+
+
+for _kind in VDistRecord.ARGS:
+    T[f"torch.distributions.{_kind}"] = (lambda kind: (lambda it, ctx, a, k: VDistRecord(kind, a, k)))(_kind)
